@@ -245,6 +245,18 @@ int println_with(const char* fmt, var args) {
 
 int print_to_with(var out, int pos, const char* fmt, var args) {
   
+  /* Too few arguments must fail before anything is written to `out` */
+  size_t nspec = 0;
+  for (const char* f = fmt; *f isnt '\0'; f++) {
+    if (*f is '%') {
+      if (*(f+1) is '%') { f++; } else { nspec++; }
+    }
+  }
+  
+  if (nspec > len(args)) {
+    throw(FormatError, "Not enough arguments to Format String!");
+  }
+  
   char* fmt_buf = malloc(strlen(fmt)+1); 
   size_t index = 0;
   
